@@ -19,8 +19,8 @@ SPEC = {
         "list entries may be null whatever is advertised (exempted by the property); __key entries are exempt",
     ],
     "manifest": {
-        "text": "Coq theorems (Props/C14.v): every result of the reference evaluator on well-typed data conforms to the advertised type (fields exactly as selected, lists, scalar JSON kind from the scalar table, enum values, null only under nullable types or as list entries); an ill-formed spot in any applicable part makes PrepareQuery fail (proved for the traversal without the memo of C15-fix-4: _partial); validation never crashes. On every run 240 generated schemas (reflect.StructOf objects, every scalar shape, enums, text marshalers, unions, FieldFuncs in all signature forms) are built, introspection.ComputeSchemaJSON is compared with the model's rendering of the walked built schema, PrepareQuery's verdict with the model's on 6 well-/ill-formed queries per schema, and every response is checked by a conformance function derived from the introspection JSON alone.",
-        "note": "Progress (validated query never fails for a shape reason) is NOT proved for the evaluator; it is checked by the oracle (validated generated queries must execute without error). Completeness of rejection is proved without the PrepareQuery memo only; the memoised model is compared with the original model and with graphql.PrepareQuery on every generated query. The evaluator is not compared with the executor (C01). Trusted: Coq kernel, the models, the harness, graphql-go, encoding/json.",
+        "text": "Coq theorems (Props/C14.v): every result of the reference evaluator on well-typed data conforms to the advertised type (fields exactly as selected, lists, scalar JSON kind from the scalar table, enum values, null only under nullable types or as list entries); an ill-formed spot in any applicable part makes PrepareQuery fail, for every variant of the traversal including the memoised one; a query Parse returned and PrepareQuery accepted never meets a shape error in the reference evaluator on well-typed data (progress); validation never crashes. On every run 240 generated schemas (reflect.StructOf objects, every scalar shape, enums, text marshalers, unions, FieldFuncs in all signature forms) are built, introspection.ComputeSchemaJSON is compared with the model's rendering of the walked built schema, PrepareQuery's verdict with the model's on 6 well-/ill-formed queries per schema, and every response is checked by a conformance function derived from the introspection JSON alone.",
+        "note": "Progress and conformance are proved about the reference evaluator, which is not compared with the executor (C01); for the implementation they are checked by the oracle (validated generated queries must execute without error and conform to the introspection JSON). Trusted: Coq kernel, the models, the harness, graphql-go, encoding/json.",
         "technique": "Coq proof over executable model + differential correspondence (introspection JSON, PrepareQuery verdicts) + conformance oracle derived from the introspection JSON on generated schemas",
     },
 }
